@@ -1,4 +1,4 @@
-import CalicoVerif.Proofs.C39Hist
+import CalicoVerif.Proofs.C39Fail
 /-!
 C39 — Overlapping IP pools resolve to one allocatable pool per address.
 
@@ -204,6 +204,104 @@ theorem finalizer_removed_only_without_blocks (blocks : List (Bool × Pfx)) (p :
     unfold reconcileFinalizer at hgone
     simp [hd, hf, hc, hb] at hgone
 
+/-! ### passes in which API writes fail
+
+`reconcileF F blocks pools`: one pass in which the `UpdateStatus` of the pools in `F.status`
+and the finalizer `Update` of the pools in `F.fin` fail (object unchanged, pass continues, as
+the code does).  The conditions in the API are what IPAM reads, so the clauses are stated on
+the API objects after the pass, for EVERY failure plan `F`. -/
+
+/-- With no failing write `reconcileF` is `reconcile` (the theorems above are the case `F = none`). -/
+theorem reconcileF_none (blocks : List (Bool × Pfx)) (pools : List Pool) :
+    reconcileF Fails.none blocks pools = reconcile blocks pools := by
+  unfold reconcileF reconcile reconcileConditions
+  rw [List.map_map]
+  congr 1
+  apply List.map_congr_left
+  intro pv _
+  have k := reconcileFinalizer_keeps blocks (applyVerdict pv.1 pv.2)
+  simp only [Function.comp, passPool, Fails.none, Bool.false_eq_true, if_false]
+  generalize hx : reconcileFinalizer blocks (applyVerdict pv.1 pv.2) = x at *
+  have h1 := k.1.trans (applyVerdict_cidr ..)
+  have h3 := k.2.2.1.trans (applyVerdict_name ..)
+  have h4 := k.2.2.2.trans (applyVerdict_deleting ..)
+  have k2 := reconcileFinalizer_keeps2 blocks (applyVerdict pv.1 pv.2)
+  rw [hx] at k2
+  have h5 : x.created = pv.1.created ∧ x.disabled = pv.1.disabled :=
+    ⟨k2.1.trans (applyVerdict_created ..), k2.2.trans (applyVerdict_disabled ..)⟩
+  cases x with
+  | mk n c cr di de co fi =>
+    simp only at h1 h3 h4 h5 k ⊢
+    obtain ⟨h5a, h5b⟩ := h5
+    subst h1; subst h3; subst h4; subst h5a; subst h5b
+    rw [← k.2.1]
+
+/-- **(1, any failures) A pass never creates an overlap among effectively allocatable pools**
+(Allocatable=True, not disabled, not being deleted — what `filterIPPool` lets IPAM use):
+if none overlapped before the pass, none overlap after it, whichever writes failed. -/
+theorem pass_never_creates_overlap (F : Fails) (blocks : List (Bool × Pfx)) (pools : List Pool)
+    (hw : ∀ p ∈ pools, p.WF) (hE : EffDisjoint pools) : EffDisjoint (reconcileF F blocks pools) :=
+  effDisjoint_pass F blocks pools hw hE
+
+/-- **(any failures) Only pools judged active are ever turned Allocatable=True.** -/
+theorem only_active_turn_true (F : Fails) (blocks : List (Bool × Pfx)) (p : Pool) (v : Verdict)
+    (h : (passPool F blocks p v).allocTrue = true) : v = .active ∨ p.allocTrue = true :=
+  passPool_allocTrue h
+
+/-- **(3, any failures) A terminating pool keeps masking even when its own status write
+fails**: the pool is inserted into the overlap trie whether or not `UpdateStatus` succeeded, so
+in EVERY pass, with ANY failure plan, an overlapping pool that was not already allocatable
+does not have Allocatable=True afterwards. -/
+theorem terminating_masks_any_failures (F : Fails) (blocks : List (Bool × Pfx)) (pools : List Pool)
+    (hw : ∀ p ∈ pools, p.WF) (t p : Pool) (ht : t ∈ pools) (htd : t.deleting = true)
+    (htn : t.disabled = false) (hpc : 2 ≤ p.category) (hov : overlapP t p = true) (v : Verdict)
+    (hv : (p, v) ∈ verdicts pools) : (passPool F blocks p v).allocTrue = false := by
+  cases h : (passPool F blocks p v).allocTrue with
+  | false => rfl
+  | true =>
+    exfalso
+    rcases passPool_allocTrue h with e | e
+    · subst e; exact terminating_masks pools hw t p ht htd htn hpc hov hv
+    · unfold Pool.category at hpc
+      rw [e] at hpc
+      cases hd : p.deleting <;> rw [hd] at hpc <;> simp at hpc
+
+/-- **(4b, any failures) A pool is not deleted while it still has address blocks**, whichever
+writes fail. -/
+theorem no_delete_with_blocks_any_failures (F : Fails) (pools : List Pool) (hw : ∀ p ∈ pools, p.WF)
+    (blocks : List (Bool × Pfx)) (p : Pool) (hp : p ∈ pools) (hd : p.deleting = true) (hf : p.fin = true)
+    (v6 : Bool) (c : Pfx) (hc : p.cidr = some (v6, c)) (hb : blocksInPool blocks v6 c = true) :
+    ∃ p' ∈ reconcileF F blocks pools, p'.name = p.name ∧ p'.fin = true ∧ p'.deleting = true ∧ p'.cidr = p.cidr := by
+  obtain ⟨v, hv⟩ := mem_verdicts_of_mem hw hp
+  have hx : (reconcileFinalizer blocks (applyVerdict p v)).fin = true := by
+    unfold reconcileFinalizer
+    simp [applyVerdict_deleting, applyVerdict_fin, applyVerdict_cidr, hd, hf, hc, hb]
+  have hfin : (passPool F blocks p v).fin = true := by
+    unfold passPool; simp only; split
+    · exact hf
+    · exact hx
+  refine ⟨passPool F blocks p v, ?_, rfl, hfin, hd, rfl⟩
+  unfold reconcileF gc
+  refine List.mem_filter.2 ⟨List.mem_map.2 ⟨(p, v), hv, rfl⟩, ?_⟩
+  simp [hfin]
+
+/-- **(4a, any failures) An allocatable pool whose own writes went through carries the finalizer.** -/
+theorem allocatable_has_finalizer_any_failures (F : Fails) (blocks : List (Bool × Pfx)) (p : Pool) (v : Verdict)
+    (hs : F.status p.name = false) (hf : F.fin p.name = false)
+    (ht : (passPool F blocks p v).allocTrue = true) (hd : p.deleting = false) :
+    (passPool F blocks p v).fin = true := by
+  have e1 : (passPool F blocks p v).cond = (applyVerdict p v).cond := by simp [passPool, hs]
+  have e2 : (passPool F blocks p v).fin = (reconcileFinalizer blocks (applyVerdict p v)).fin := by simp [passPool, hf]
+  rw [e2]
+  have hxt : (applyVerdict p v).allocTrue = true := by unfold Pool.allocTrue at ht ⊢; rw [← e1]; exact ht
+  have hxf : (applyVerdict p v).allocFalse = false := by
+    unfold Pool.allocTrue at hxt; unfold Pool.allocFalse
+    cases hc : (applyVerdict p v).cond with
+    | none => rfl
+    | some c => rw [hc] at hxt; simp only at hxt ⊢; rw [hxt]; rfl
+  unfold reconcileFinalizer
+  simp [applyVerdict_deleting, hd, hxf]
+
 /-! ### non-vacuity: a configuration exercising every clause -/
 
 def pA : Pool := ⟨0, some (false, ⟨0x0a000000, 16⟩), 1, false, false, some ⟨true, "OK"⟩, true⟩    -- incumbent 10.0.0.0/16
@@ -228,6 +326,15 @@ example : ((reconcile exBlocks exPools).map (fun p => (p.name, p.allocTrue, p.fi
 example : ((reconcile [] exPools).map (·.name)) = [0, 1, 3] := by
   unfold reconcile reconcileConditions verdicts; rw [exSorted]; decide
 
+
+/-- the example configuration satisfies the hypothesis of `pass_never_creates_overlap`; a failure plan -/
+example : EffDisjoint exPools := by
+  unfold EffDisjoint EffD Eff exPools
+  decide
+def exFails : Fails := ⟨fun n => n == 2, fun n => n == 0⟩   -- T's status write and A's finalizer write fail
+example : (verdicts exPools).map (fun pv => ((passPool exFails exBlocks pv.1 pv.2).name,
+      (passPool exFails exBlocks pv.1 pv.2).allocTrue)) = [(0, true), (2, true), (1, false), (3, false)] := by
+  unfold verdicts; rw [exSorted]; decide
 
 /-- a benign history from the empty cluster: create A, reconcile, create overlapping older B, reconcile -/
 def exHist : List Event :=
